@@ -153,6 +153,376 @@ def _plain_local_assignments(tree: ast.AST) -> None:
     _T().visit(tree)
 
 
+def _literal_tables(tree: ast.Module) -> None:
+    """Spellings of a literal table are read as the dict display they build - nothing is decided here:
+      * `dict(zip(KEYS, VALUES[, strict=..]))` over two equally long tuple / list displays,
+      * `dict([(k, v), ...])` / `dict(((k, v), ...))`,
+      * `{k: v for row in ROWS for x in row[1] ...}`: a dict comprehension (no conditions) whose generators run over tuple /
+        list displays, unrolled in iteration order,
+    where a display may stand behind a name bound exactly once in the same scope.  `a, b = x, y` (names only, no target read
+    on the right) becomes `a = x; b = y`."""
+    import copy
+    PURE = (ast.Constant, ast.Name, ast.Attribute)
+
+    def pure(e: ast.AST) -> bool:
+        if isinstance(e, (ast.Tuple, ast.List)):
+            return all(pure(x) for x in e.elts)
+        if isinstance(e, ast.Attribute):
+            return pure(e.value)
+        return isinstance(e, PURE)
+
+    def scope_nodes(body):  # nodes of this scope, not of nested functions / classes
+        stack = list(body)
+        while stack:
+            n = stack.pop()
+            yield n
+            for c in ast.iter_child_nodes(n):
+                if isinstance(c, (ast.FunctionDef, ast.AsyncFunctionDef, ast.ClassDef, ast.Lambda)):
+                    continue
+                stack.append(c)
+
+    def displays(body, params=()):
+        stores: Dict[str, int] = {}
+        val: Dict[str, ast.AST] = {}
+        for pn in params:
+            stores[pn] = 2
+        for n in scope_nodes(body):
+            if isinstance(n, ast.Name) and not isinstance(n.ctx, ast.Load):
+                stores[n.id] = stores.get(n.id, 0) + 1
+            if isinstance(n, (ast.Global, ast.Nonlocal)):
+                for nm in n.names:
+                    stores[nm] = 2
+            if isinstance(n, ast.Assign) and len(n.targets) == 1 and isinstance(n.targets[0], ast.Name) and isinstance(n.value, (ast.Tuple, ast.List)):
+                val[n.targets[0].id] = n.value
+        out = {}
+        for nm, v in val.items():
+            if stores.get(nm) != 1:
+                continue
+            if isinstance(v, ast.List):
+                # a list is mutable: only when every read is an iteration position
+                loads = [x for x in scope_nodes(body) if isinstance(x, ast.Name) and x.id == nm and isinstance(x.ctx, ast.Load)]
+                iters = set()
+                for x in scope_nodes(body):
+                    if isinstance(x, ast.comprehension) and isinstance(x.iter, ast.Name):
+                        iters.add(id(x.iter))
+                    if isinstance(x, ast.Call) and isinstance(x.func, ast.Name) and x.func.id == "zip":
+                        iters.update(id(a) for a in x.args)
+                if not all(id(l) in iters for l in loads):
+                    continue
+            out[nm] = v
+        return out
+
+    def disp(e: Optional[ast.AST], env: Dict[str, ast.AST]) -> Optional[ast.AST]:
+        if isinstance(e, ast.Name) and e.id in env:
+            e = env[e.id]
+        return e if isinstance(e, (ast.Tuple, ast.List)) and not any(isinstance(x, ast.Starred) for x in e.elts) else None
+
+    class _Sub(ast.NodeTransformer):
+        def __init__(self, env): self.env = env
+        def visit_Name(self, node):  # type: ignore[no-untyped-def]
+            if isinstance(node.ctx, ast.Load) and node.id in self.env:
+                return copy.deepcopy(self.env[node.id])
+            return node
+
+    def uses(e: ast.AST, nm: str) -> int:
+        return sum(1 for x in ast.walk(e) if isinstance(x, ast.Name) and x.id == nm)
+
+    def unroll(node: ast.DictComp, env: Dict[str, ast.AST]) -> Optional[ast.Dict]:
+        rows: List[Tuple[ast.AST, ast.AST]] = []
+
+        def go(i: int, bound: Dict[str, ast.AST]) -> bool:
+            if len(rows) > 256:
+                return False
+            if i == len(node.generators):
+                rows.append((_Sub(bound).visit(copy.deepcopy(node.key)), _Sub(bound).visit(copy.deepcopy(node.value))))
+                return True
+            gen = node.generators[i]
+            if gen.ifs or gen.is_async:
+                return False
+            it = gen.iter
+            if isinstance(it, ast.Name) and it.id in bound:
+                it = bound[it.id]
+            it = disp(it, env)
+            if it is None:
+                return False
+            for el in it.elts:
+                b2 = dict(bound)
+                if isinstance(gen.target, ast.Name):
+                    b2[gen.target.id] = el
+                elif isinstance(gen.target, (ast.Tuple, ast.List)) and all(isinstance(t, ast.Name) for t in gen.target.elts) \
+                        and isinstance(el, (ast.Tuple, ast.List)) and len(el.elts) == len(gen.target.elts):
+                    for t, x in zip(gen.target.elts, el.elts):
+                        b2[t.id] = x  # type: ignore[attr-defined]
+                else:
+                    return False
+                if not go(i + 1, b2):
+                    return False
+            return True
+
+        # substituted elements are evaluated once per use: only side-effect-free atoms may be duplicated
+        if not go(0, {}):
+            return None
+        tnames = set()
+        for gen in node.generators:
+            tnames |= {x.id for x in ast.walk(gen.target) if isinstance(x, ast.Name)}
+        inner = len(node.generators) > 1
+        for gen in node.generators:
+            it = gen.iter
+            d = disp(it, env)
+            if d is None:
+                continue
+            for el in d.elts:
+                parts = el.elts if isinstance(el, (ast.Tuple, ast.List)) and isinstance(gen.target, (ast.Tuple, ast.List)) else [el]
+                tgts = gen.target.elts if isinstance(gen.target, (ast.Tuple, ast.List)) else [gen.target]
+                for t, x in zip(tgts, parts):
+                    if pure(x):
+                        continue
+                    n_use = uses(node.key, t.id) + uses(node.value, t.id)  # type: ignore[attr-defined]
+                    if inner or n_use != 1:
+                        return None
+        if not rows:
+            return None
+        return ast.Dict(keys=[k for k, _v in rows], values=[v for _k, v in rows])
+
+    class _T(ast.NodeTransformer):
+        def __init__(self) -> None:
+            self.envs: List[Dict[str, ast.AST]] = []
+
+        def _scope(self, node, body, params=()):  # type: ignore[no-untyped-def]
+            self.envs.append(displays(body, params))
+            self.generic_visit(node)
+            self.envs.pop()
+            return node
+
+        def visit_Module(self, node):  # type: ignore[no-untyped-def]
+            return self._scope(node, node.body)
+
+        def visit_ClassDef(self, node):  # type: ignore[no-untyped-def]
+            return self._scope(node, node.body)
+
+        def visit_FunctionDef(self, node):  # type: ignore[no-untyped-def]
+            a = node.args
+            params = [x.arg for x in a.posonlyargs + a.args + a.kwonlyargs] + ([a.vararg.arg] if a.vararg else []) + ([a.kwarg.arg] if a.kwarg else [])
+            return self._scope(node, node.body, params)
+
+        visit_AsyncFunctionDef = visit_FunctionDef
+
+        def visit_Assign(self, node):  # type: ignore[no-untyped-def]
+            self.generic_visit(node)
+            if len(self.envs) > 1 and len(node.targets) == 1 and isinstance(node.targets[0], ast.Tuple) and isinstance(node.value, ast.Tuple) \
+                    and len(node.targets[0].elts) == len(node.value.elts) and len(node.value.elts) >= 2 \
+                    and all(isinstance(t, ast.Name) for t in node.targets[0].elts) \
+                    and not any(isinstance(x, ast.Starred) for x in node.value.elts):
+                tn = {t.id for t in node.targets[0].elts}  # type: ignore[attr-defined]
+                if len(tn) == len(node.targets[0].elts) and not any(isinstance(x, ast.Name) and x.id in tn for v in node.value.elts for x in ast.walk(v)) \
+                        and not any(isinstance(x, (ast.NamedExpr, ast.Lambda)) for v in node.value.elts for x in ast.walk(v)):
+                    out = []
+                    for t, v in zip(node.targets[0].elts, node.value.elts):
+                        a = ast.Assign(targets=[t], value=v)
+                        ast.copy_location(a, node)
+                        out.append(a)
+                    return out
+            return node
+
+        def visit_Call(self, node):  # type: ignore[no-untyped-def]
+            self.generic_visit(node)
+            env = self.envs[-1] if self.envs else {}
+            if isinstance(node.func, ast.Name) and node.func.id == "dict" and len(node.args) == 1 \
+                    and all(k.arg is not None for k in node.keywords) and not node.keywords:
+                a = node.args[0]
+                if isinstance(a, ast.Call) and isinstance(a.func, ast.Name) and a.func.id == "zip" and len(a.args) == 2 \
+                        and all(k.arg == "strict" for k in a.keywords):
+                    ks, vs = disp(a.args[0], env), disp(a.args[1], env)
+                    if ks is not None and vs is not None and len(ks.elts) == len(vs.elts) and ks.elts:
+                        return ast.copy_location(ast.Dict(keys=[copy.deepcopy(x) for x in ks.elts], values=[copy.deepcopy(x) for x in vs.elts]), node)
+                d = disp(a, env)
+                if d is not None and d.elts and all(isinstance(x, (ast.Tuple, ast.List)) and len(x.elts) == 2 for x in d.elts):
+                    return ast.copy_location(ast.Dict(keys=[copy.deepcopy(x.elts[0]) for x in d.elts],  # type: ignore[attr-defined]
+                                                      values=[copy.deepcopy(x.elts[1]) for x in d.elts]), node)  # type: ignore[attr-defined]
+            return node
+
+        def visit_DictComp(self, node):  # type: ignore[no-untyped-def]
+            self.generic_visit(node)
+            d = unroll(node, self.envs[-1] if self.envs else {})
+            if d is None:
+                return node
+            ast.copy_location(d, node)
+            for x in ast.walk(d):
+                if not hasattr(x, "lineno"):
+                    ast.copy_location(x, node)
+            return d
+
+    _T().visit(tree)
+    ast.fix_missing_locations(tree)
+
+
+def _record_names(trees: List[ast.Module]) -> set:
+    """Names of the package's plain record classes (@dataclass / NamedTuple)."""
+    out = set()
+    for t in trees:
+        for c in ast.walk(t):
+            if not isinstance(c, ast.ClassDef):
+                continue
+            decs = [dotted(d.func if isinstance(d, ast.Call) else d) or "" for d in c.decorator_list]
+            bases = [dotted(b) or "" for b in c.bases]
+            if any(d.split(".")[-1] == "dataclass" for d in decs) or any(b.split(".")[-1] == "NamedTuple" for b in bases):
+                out.add(c.name)
+    return out
+
+
+def _record_field_aliases(tree: ast.Module, records: set) -> None:
+    """`op = expr.op` - ONE read of a field of a record-typed parameter into a local that is never re-bound, in a function that
+    never stores to that field or re-binds the parameter - is read as the field itself: every later `op` is `expr.op`.  Whether
+    a maintainer reads the field once or at each use changes nothing a rule should see."""
+    import copy
+
+    def own_nodes(fn):  # type: ignore[no-untyped-def]
+        stack = list(fn.body)
+        while stack:
+            n = stack.pop()
+            yield n
+            for c in ast.iter_child_nodes(n):
+                if isinstance(c, (ast.FunctionDef, ast.AsyncFunctionDef, ast.ClassDef, ast.Lambda)):
+                    continue
+                stack.append(c)
+
+    for fn in [x for x in ast.walk(tree) if isinstance(x, (ast.FunctionDef, ast.AsyncFunctionDef))]:
+        a = fn.args
+        rec_params = {}
+        for arg in a.posonlyargs + a.args + a.kwonlyargs:
+            ann = arg.annotation
+            if isinstance(ann, ast.Constant) and isinstance(ann.value, str):
+                nm = ann.value.strip().split(".")[-1]
+            else:
+                nm = (dotted(ann) or "").split(".")[-1] if ann is not None else ""
+            if nm in records:
+                rec_params[arg.arg] = nm
+        # `for expr in expressions:` over a parameter annotated List[Record] / Sequence[Record] / Iterable[Record]
+        coll_params = {}
+        for arg in a.posonlyargs + a.args + a.kwonlyargs:
+            ann = arg.annotation
+            if isinstance(ann, ast.Subscript) and (dotted(ann.value) or "").split(".")[-1] in ("List", "list", "Sequence", "Iterable", "Tuple", "tuple", "Collection"):
+                inner = ann.slice
+                if isinstance(inner, ast.Tuple) and len(inner.elts) == 2 and isinstance(inner.elts[1], ast.Constant) and inner.elts[1].value is Ellipsis:
+                    inner = inner.elts[0]
+                nm = inner.value.strip() if isinstance(inner, ast.Constant) and isinstance(inner.value, str) else (dotted(inner) or "")
+                if nm.split(".")[-1] in records:
+                    coll_params[arg.arg] = nm.split(".")[-1]
+        loop_of: Dict[str, ast.For] = {}
+        if coll_params:
+            for n in own_nodes(fn):
+                if isinstance(n, ast.For) and isinstance(n.target, ast.Name) and isinstance(n.iter, ast.Name) and n.iter.id in coll_params:
+                    loop_of[n.target.id] = n
+        if not rec_params and not loop_of:
+            continue
+        all_params = {x.arg for x in a.posonlyargs + a.args + a.kwonlyargs} | ({a.vararg.arg} if a.vararg else set()) | ({a.kwarg.arg} if a.kwarg else set())
+        stores: Dict[str, int] = {}
+        for n in own_nodes(fn):
+            if isinstance(n, ast.Name) and not isinstance(n.ctx, ast.Load):
+                stores[n.id] = stores.get(n.id, 0) + 1
+            elif isinstance(n, (ast.Global, ast.Nonlocal)):
+                for nm in n.names:
+                    stores[nm] = 9
+        nested_bound = set()
+        field_stores = set()
+        for n in ast.walk(fn):
+            if isinstance(n, ast.Attribute) and not isinstance(n.ctx, ast.Load) and isinstance(n.value, ast.Name):
+                field_stores.add((n.value.id, n.attr))
+            if isinstance(n, (ast.Lambda, ast.FunctionDef, ast.AsyncFunctionDef)) and n is not fn:
+                aa = n.args
+                nested_bound |= {x.arg for x in aa.posonlyargs + aa.args + aa.kwonlyargs}
+                if not isinstance(n, ast.Lambda):
+                    nested_bound |= {x.id for x in ast.walk(n) if isinstance(x, ast.Name) and not isinstance(x.ctx, ast.Load)}
+            if isinstance(n, ast.Call) and isinstance(n.func, ast.Name) and n.func.id in ("setattr", "delattr") and n.args \
+                    and isinstance(n.args[0], ast.Name):
+                field_stores.add((n.args[0].id, "*"))
+        alias: Dict[str, ast.Attribute] = {}
+        for n in own_nodes(fn):
+            if isinstance(n, ast.Assign) and len(n.targets) == 1 and isinstance(n.targets[0], ast.Name) \
+                    and isinstance(n.value, ast.Attribute) and isinstance(n.value.value, ast.Name):
+                x, pn, at = n.targets[0].id, n.value.value.id, n.value.attr
+                if pn in rec_params and stores.get(pn, 0) == 0 and stores.get(x) == 1 and x not in all_params and x not in nested_bound \
+                        and (pn, at) not in field_stores and (pn, "*") not in field_stores:
+                    alias[x] = n.value
+                elif pn in loop_of and stores.get(pn) == 1 and stores.get(loop_of[pn].iter.id, 0) == 0 and stores.get(x) == 1 \
+                        and x not in all_params and x not in nested_bound and (pn, at) not in field_stores and (pn, "*") not in field_stores:
+                    inside = {id(y) for st in loop_of[pn].body for y in ast.walk(st)}
+                    if id(n) in inside and all(id(y) in inside for y in ast.walk(fn) if isinstance(y, ast.Name) and y.id == x):
+                        alias[x] = n.value
+        if not alias:
+            continue
+
+        class _S(ast.NodeTransformer):
+            def visit_Name(self, node):  # type: ignore[no-untyped-def]
+                if isinstance(node.ctx, ast.Load) and node.id in alias:
+                    return ast.copy_location(copy.deepcopy(alias[node.id]), node)
+                return node
+
+        fn.body = [_S().visit(st) for st in fn.body]
+        ast.fix_missing_locations(fn)
+
+
+def _desugar_match(tree: ast.Module) -> None:
+    """`match subject:` over value patterns (constants / dotted names, `a | b`, None / True / False, guards, a final `case _`)
+    is the if / elif chain of `subject == value` tests the language defines it to be.  Structural patterns (class, sequence,
+    mapping, captures) are left alone: the CFG builder reports them as not modelled."""
+    import copy
+    counter = [0]
+
+    def test_of(pat: ast.AST, subj: ast.AST) -> Optional[ast.AST]:
+        if isinstance(pat, ast.MatchValue):
+            return ast.Compare(left=copy.deepcopy(subj), ops=[ast.Eq()], comparators=[pat.value])
+        if isinstance(pat, ast.MatchSingleton):
+            return ast.Compare(left=copy.deepcopy(subj), ops=[ast.Is()], comparators=[ast.Constant(value=pat.value)])
+        if isinstance(pat, ast.MatchOr):
+            parts = [test_of(p_, subj) for p_ in pat.patterns]
+            if any(x is None for x in parts):
+                return None
+            return ast.BoolOp(op=ast.Or(), values=parts)
+        return None
+
+    class _T(ast.NodeTransformer):
+        def visit_Match(self, node):  # type: ignore[no-untyped-def]
+            self.generic_visit(node)
+            pre: List[ast.stmt] = []
+            subj = node.subject
+            if not (isinstance(subj, ast.Name) or (isinstance(subj, ast.Attribute) and dotted(subj))):
+                counter[0] += 1
+                tmp = f"__match_subject_{counter[0]}"
+                a = ast.Assign(targets=[ast.Name(id=tmp, ctx=ast.Store())], value=subj)
+                ast.copy_location(a, node)
+                pre.append(a)
+                subj = ast.Name(id=tmp, ctx=ast.Load())
+            arms: List[Tuple[Optional[ast.AST], List[ast.stmt]]] = []
+            for i, c in enumerate(node.cases):
+                wild = isinstance(c.pattern, ast.MatchAs) and c.pattern.pattern is None and c.pattern.name is None
+                if wild:
+                    t = None
+                    if c.guard is None and i != len(node.cases) - 1:
+                        return node
+                else:
+                    t = test_of(c.pattern, subj)
+                    if t is None:
+                        return node
+                if c.guard is not None:
+                    t = c.guard if t is None else ast.BoolOp(op=ast.And(), values=[t, c.guard])
+                arms.append((t, c.body))
+            chain: List[ast.stmt] = []
+            for t, body in reversed(arms):
+                if t is None:
+                    chain = list(body)
+                else:
+                    chain = [ast.copy_location(ast.If(test=t, body=list(body), orelse=chain), body[0])]
+            out = pre + chain
+            for x in out:
+                ast.copy_location(x, node) if not hasattr(x, "lineno") else None
+                ast.fix_missing_locations(x)
+            return out
+
+    if hasattr(ast, "Match"):
+        _T().visit(tree)
+
+
 def _specialise_constant_dispatch(tree: ast.Module, modname: str, known: Optional[set]) -> None:
     """A private helper introduced after the rules were written that DISPATCHES on a string parameter -
     `getattr(client, request)(...)`, `TABLE[request]` - and is only ever called with string literals for it
@@ -473,6 +843,7 @@ class Program:
     # ------------------------------------------------------------------ load
     def _load(self) -> None:
         h = hashlib.sha256()
+        parsed = []
         for fn in sorted(os.listdir(self.pkg_dir)):
             if not fn.endswith(".py"):
                 continue
@@ -484,7 +855,13 @@ class Program:
                 tree = ast.parse(src, filename=path)
             except SyntaxError as e:
                 raise AnalysisError(f"cannot parse {path}: {e}") from e
+            parsed.append((fn, path, src, tree))
+        records = _record_names([t for _f, _p, _s, t in parsed])
+        for fn, path, src, tree in parsed:
+            _desugar_match(tree)
             _plain_local_assignments(tree)
+            _literal_tables(tree)
+            _record_field_aliases(tree, records)
             modname = f"{PKG}.{fn[:-3]}" if fn != "__init__.py" else PKG
             _specialise_constant_dispatch(tree, modname, self.known)
             m = Module(modname, path, os.path.relpath(path, self.repo_root), src, tree)
